@@ -44,7 +44,8 @@ package config
 //@   ensures @stored has(c.sws, svcName) ==> c.sws[svcName].Config == newCfg
 //@   ensures @silent-until-the-endpoints-are-known has(c.sws, svcName) && isnil(c.sws[svcName].Endpoints) ==> sentcount(c.evtCh) == old(sentcount(c.evtCh))
 //@   ensures @announced-when-first-complete has(c.sws, svcName) && !isnil(c.sws[svcName].Endpoints) && old(c.sws[svcName].Config == nil) ==> sentcount(c.evtCh) == old(sentcount(c.evtCh)) + 1 && typeis(sentat(c.evtCh, old(sentcount(c.evtCh))), "*SvcAddEvent")
-//@   ensures @config-event-once-announced has(c.sws, svcName) && !isnil(c.sws[svcName].Endpoints) && old(c.sws[svcName].Config != nil) ==> sentcount(c.evtCh) == old(sentcount(c.evtCh)) + 1 && typeis(sentat(c.evtCh, old(sentcount(c.evtCh))), "*SvcConfigEvent") && ifaceptr(sentat(c.evtCh, old(sentcount(c.evtCh))), "*SvcConfigEvent").Config == newCfg
+//@   ensures @config-event-once-announced has(c.sws, svcName) && !isnil(c.sws[svcName].Endpoints) && old(c.sws[svcName].Config != nil && cfgvalid(c.sws[svcName].Config)) ==> sentcount(c.evtCh) == old(sentcount(c.evtCh)) + 1 && typeis(sentat(c.evtCh, old(sentcount(c.evtCh))), "*SvcConfigEvent") && ifaceptr(sentat(c.evtCh, old(sentcount(c.evtCh))), "*SvcConfigEvent").Config == newCfg
+//@   ensures @a-corrected-configuration-announces-the-service has(c.sws, svcName) && !isnil(c.sws[svcName].Endpoints) && old(c.sws[svcName].Config != nil && !cfgvalid(c.sws[svcName].Config)) && cfgvalid(newCfg) ==> sentcount(c.evtCh) == old(sentcount(c.evtCh)) + 1 && typeis(sentat(c.evtCh, old(sentcount(c.evtCh))), "*SvcAddEvent")
 
 //@ func (*Config).handleSvcEndpointUpdate
 //@   prop C08
@@ -52,7 +53,7 @@ package config
 //@   requires @lists-present (forall k int :: 0 <= k && k < len(added) ==> added[k] != nil) && (forall k int :: 0 <= k && k < len(removed) ==> removed[k] != nil) && (has(c.sws, svcName) ==> forall k int :: 0 <= k && k < len(c.sws[svcName].Endpoints) ==> c.sws[svcName].Endpoints[k] != nil)
 //@   requires @update-lists-are-not-views-of-the-stored-list has(c.sws, svcName) ==> disjoint(added, c.sws[svcName].Endpoints) && disjoint(removed, c.sws[svcName].Endpoints)
 //@   let eps0 = c.sws[svcName].Endpoints
-//@   modifies all, sent(c.evtCh)
+//@   modifies c.sws[svcName].Endpoints, c.sws[svcName].Endpoints[0:cap(c.sws[svcName].Endpoints)], sent(c.evtCh)
 //@   ensures @unknown-service-ignored !old(has(c.sws, svcName)) ==> sentcount(c.evtCh) == old(sentcount(c.evtCh))
 //@   ensures @at-most-one-event sentcount(c.evtCh) <= old(sentcount(c.evtCh)) + 1
 //@   ensures @an-announced-service-is-not-announced-again old(has(c.sws, svcName) && complete(c.sws[svcName])) ==> !(sentcount(c.evtCh) == old(sentcount(c.evtCh)) + 1 && typeis(sentat(c.evtCh, old(sentcount(c.evtCh))), "*SvcAddEvent"))
@@ -63,3 +64,20 @@ package config
 //@   loop 1 invariant sw != nil && forall k int :: 0 <= k && k < len(sw.Endpoints) ==> sw.Endpoints[k] != nil
 //@   loop 1 invariant ((base(sw.Endpoints) == base(eps0) && off(sw.Endpoints) == off(eps0) && cap(sw.Endpoints) == cap(eps0)) || fresh(sw.Endpoints)) && (cap(validAdded) == 0 || fresh(validAdded))
 //@   loop 1 invariant forall k int :: 0 <= k && k < len(added) ==> added[k] != nil
+
+
+//@ func (*Config).handleDependencyUpdate
+//@   prop C08
+//@   requires swsok(c)
+//@   requires @lists-present (forall k int :: 0 <= k && k < len(added) ==> added[k] != nil) && (forall k int :: 0 <= k && k < len(removed) ==> removed[k] != nil)
+//@   modifies mapof(c.sws), sent(c.evtCh)
+//@   ensures @tracked-services-well-formed swsok(c)
+//@   ensures @removed-services-are-forgotten forall k int :: 0 <= k && k < len(removed) ==> !has(c.sws, removed[k].Name)
+//@   ensures @only-removals-are-announced sentcount(c.evtCh) >= old(sentcount(c.evtCh)) && sentcount(c.evtCh) <= old(sentcount(c.evtCh)) + len(removed) && forall j int :: old(sentcount(c.evtCh)) <= j && j < sentcount(c.evtCh) ==> typeis(sentat(c.evtCh, j), "*SvcRemoveEvent")
+//@   ensures @services-not-mentioned-are-untouched forall n string :: (forall k int :: 0 <= k && k < len(added) ==> added[k].Name != n) && (forall k int :: 0 <= k && k < len(removed) ==> removed[k].Name != n) ==> has(c.sws, n) == old(has(c.sws, n)) && (has(c.sws, n) ==> c.sws[n] == old(c.sws[n]))
+//@   loop 0 invariant swsok(c) && sentcount(c.evtCh) == old(sentcount(c.evtCh))
+//@   loop 0 invariant forall n string :: (forall k int :: 0 <= k && k < len(added) ==> added[k].Name != n) ==> has(c.sws, n) == old(has(c.sws, n)) && (has(c.sws, n) ==> c.sws[n] == old(c.sws[n]))
+//@   loop 1 invariant swsok(c) && sentcount(c.evtCh) >= old(sentcount(c.evtCh)) && sentcount(c.evtCh) <= old(sentcount(c.evtCh)) + rangeindex + 1
+//@   loop 1 invariant forall j int :: old(sentcount(c.evtCh)) <= j && j < sentcount(c.evtCh) ==> typeis(sentat(c.evtCh, j), "*SvcRemoveEvent")
+//@   loop 1 invariant forall k int :: 0 <= k && k <= rangeindex ==> !has(c.sws, removed[k].Name)
+//@   loop 1 invariant forall n string :: (forall k int :: 0 <= k && k < len(added) ==> added[k].Name != n) && (forall k int :: 0 <= k && k < len(removed) ==> removed[k].Name != n) ==> has(c.sws, n) == old(has(c.sws, n)) && (has(c.sws, n) ==> c.sws[n] == old(c.sws[n]))
